@@ -99,7 +99,7 @@ func (sc *scenario) build(prop string) (*mc.Scenario, error) {
 			w.Monitors = append(w.Monitors, ms.ref)
 		case "C05":
 			li := &monitor.ListIntegrity{Prop: prop, HashID: stk.HashName(sc.Cfg), Cfg: sc.Cfg, CheckOpen: true}
-			if sc.Init == "empty" {
+			if sc.Init == "empty" || sc.Init == "orphan-empty" {
 				li.HashID = "" // decided by the first committed table
 			}
 			w.Monitors = append(w.Monitors, li)
@@ -110,7 +110,19 @@ func (sc *scenario) build(prop string) (*mc.Scenario, error) {
 			ms.snap.Init(w)
 			w.Monitors = append(w.Monitors, ms.snap)
 		case "C16":
-			w.Monitors = append(w.Monitors, &monitor.Residue{Prop: prop, Holding: func(p *mc.Proc) bool { return p.Local["addition"] != nil }})
+			// files that were already stale when the scenario starts (left by processes killed earlier) need not be
+			// removed by anybody: the property only demands that Close and Clean remove nothing else
+			stale := map[string]bool{}
+			listed0 := map[string]bool{"tables.list": true}
+			for _, n := range strings.Split(string(snap["tables.list"]), "\n") {
+				listed0[n] = true
+			}
+			for n := range snap {
+				if !listed0[n] {
+					stale[n] = true
+				}
+			}
+			w.Monitors = append(w.Monitors, &monitor.Residue{Prop: prop, Stale: stale, Holding: func(p *mc.Proc) bool { return p.Local["addition"] != nil }})
 		}
 		for _, ps := range sc.Procs {
 			ps := ps
